@@ -295,6 +295,18 @@ def run(ctx):
                 ok = got == wa
             ctx.ob("R6", "%s|%s" % (si.short, what), ok, si.where(), "arguments 1,2 of the constructor are parameters %s of StreamIds::new (expected %s)" % (got, wa))
 
+    # ---------------------------------------------------------------- R7
+    ctx.rule("R7", "the extent a reset is compared with is the maximum ever received: Recv.largest is written only under `largest < new` "
+                   "(a reordered or duplicate frame must not lower it)")
+    for (b7, i7, j7, p7, rv7, line7) in [w for w in field_writes(prog, "recver::Recv", "largest") if not w[0].short.endswith("::new")]:
+        ctx.touch(b7)
+        kind7 = classify_write(b7, i7, j7)
+        ok7 = kind7[0] == "add" or guarded_increase(b7, i7, j7)
+        ctx.ob("R7", "%s|Recv.largest only grows" % b7.short, ok7, b7.where(line7),
+               "write shape `%s`; guarded by new > old: %s — otherwise a RESET_STREAM whose final size lies below data already received "
+               "(after reordering) is accepted instead of FINAL_SIZE_ERROR, and an honest reset over-charges connection flow control"
+               % (kind7[0], ok7))
+
     # ---------------------------------------------------------------- R4
     for name, inserts in ((DS + "::try_accept_bi_sid", [r"ArcInputGuard::insert$", r"ArcOutputGuard::insert$", r"ListenerGuard::push_bi_stream$"]),
                           (DS + "::try_accept_uni_sid", [r"ArcInputGuard::insert$", r"ListenerGuard::push_uni_stream$"])):
